@@ -14,7 +14,11 @@ JudgeOne(exp, o, shape) ==
     ELSE IF o[2] # exp[2] THEN "C18.Kind"
     ELSE IF o[4] # exp[3] THEN "C18.Value" ELSE "ok"
 Judge(t) ==
-    IF t.mode = "read" THEN JudgeOne(Read(t.grids[1], t.mv, t.dt), t.obs[1], Shape(t.grids[1]))
+    IF t.mode = "read" THEN
+         LET first == JudgeOne(Read(t.grids[1], t.mv, t.dt), t.obs[1], Shape(t.grids[1])) IN
+         IF first # "ok" THEN first
+         \* a second, plain read of the same variable in the same process is not influenced by the first one
+         ELSE IF t.again # <<>> /\ JudgeOne(Read(t.grids[1], <<>>, ""), t.again, Shape(t.grids[1])) # "ok" THEN "C18.ReadAgain" ELSE "ok"
     ELSE IF ~t.dimsok THEN "C18.Dims"
     ELSE LET vs == [i \in 1..Len(t.grids) |-> JudgeOne(Read(Written(t.grids, i), <<>>, IF Kind(t.grids[i]) = "i" THEN "Integer" ELSE ""), t.obs[i], Shape(t.grids[i]))]
              \* the first result written again, alone, after the joint write: the file holds exactly that result
